@@ -97,15 +97,27 @@ class TLCResult:
         self.ok = (rc == 0 and not self.errors)
 
     def prints(self):
-        """PrintT'ed tuples `<<"TAG", ...>>` as python lists."""
+        """PrintT'ed tuples `<<"TAG", ...>>` as python lists (TLC wraps long values over several
+        lines: collect until the brackets balance)."""
         res = []
+        buf = None
         for line in self.out.splitlines():
-            line = line.strip()
-            if line.startswith('<<') and line.endswith('>>'):
+            st = line.strip()
+            if buf is None:
+                if st.startswith('<<') and (st.startswith('<<"') or st.startswith('<< "')):
+                    buf = st
+                else:
+                    continue
+            else:
+                buf += ' ' + st
+            if _balanced(buf):
                 try:
-                    res.append(parse_tla_value(line))
+                    res.append(parse_tla_value(buf))
                 except Exception:
                     pass
+                buf = None
+            elif len(buf) > 2000000:
+                buf = None
         return res
 
     def coverage(self):
@@ -114,6 +126,33 @@ class TLCResult:
         for m in re.finditer(r'<(\w+) line \d+, col \d+ to line \d+, col \d+ of module (\w+)>: (\d+):(\d+)', self.out):
             cov[m.group(1)] = (int(m.group(3)), int(m.group(4)))
         return cov
+
+
+def _balanced(t):
+    depth = 0
+    instr = False
+    i = 0
+    while i < len(t):
+        c = t[i]
+        if instr:
+            if c == '\\':
+                i += 1
+            elif c == '"':
+                instr = False
+        elif c == '"':
+            instr = True
+        elif t.startswith('<<', i):
+            depth += 1
+            i += 1
+        elif t.startswith('>>', i):
+            depth -= 1
+            i += 1
+        elif c in '{[(':
+            depth += 1
+        elif c in '}])':
+            depth -= 1
+        i += 1
+    return depth == 0 and not instr
 
 
 def tlc(module, cfg, workers=None, timeout=600, env=None, simulate=None, depth=None,
